@@ -6,4 +6,9 @@ from ..contracts import gminit as GI
 def run(tier):
     rel, q, c = GI.ITEM
     # mle (the refit of RDA / IG) is only a valid factorisation for the clique order the junction tree returns: wiring contract
-    return infer.split(zeros=False) + [deductive.verify_function(rel, q, c)]
+    reps = infer.split(zeros=False) + [deductive.verify_function(rel, q, c)]
+    from ..contracts import exactmsg as XM
+    for rel2, q2, c2, sites, tag in XM.ITEMS:
+        if tag == 'C08':
+            reps.append(deductive.verify_function(rel2, q2, c2, hooks=XM.hooks(sites), prefix='%s::%s[update equations]' % (rel2, q2)))
+    return reps
